@@ -17,6 +17,7 @@
 from persistent import Persistent
 
 from ._compat import compare
+from ._datatypes import O as _ObjectKeyType
 from .Interfaces import BTreesConflictError
 
 
@@ -107,6 +108,14 @@ class _ArithmeticMixin:
 
 
 class _BucketBase(_ArithmeticMixin, _Base):
+
+    def _key_from_state(self, key):
+        # Like the C implementation: data coming from a state is converted
+        # (and refused if it does not fit the key type), but the "has
+        # default comparison" check of object keys applies to new data only.
+        if isinstance(self._to_key, _ObjectKeyType):
+            return key
+        return self._to_key(key)
 
     __slots__ = ('_keys', '_next', '_to_key')
 
@@ -476,11 +485,14 @@ class Bucket(_MutableMappingMixin, _BucketBase):
             self._next = None
             state = state[0]
 
-        keys = self._keys
-        values = self._values
-        for i in range(0, len(state), 2):
-            keys.append(state[i])
-            values.append(state[i + 1])
+        # Convert like the C implementation does, so that a state holding
+        # data outside the key/value type is refused.
+        keys = [self._key_from_state(key) for key in state[::2]]
+        values = [self._to_value(value) for value in state[1::2]]
+        if len(keys) != len(values):
+            raise IndexError('key without value in state')
+        self._keys.extend(keys)
+        self._values.extend(values)
 
     def _p_resolveConflict(self, s_old, s_com, s_new):
         b_old = type(self)()
@@ -726,7 +738,9 @@ class Set(_MutableSetMixin, _BucketBase):
             self._next = None
             state = state[0]
 
-        self._keys.extend(state)
+        # Convert like the C implementation does, so that a state holding
+        # data outside the key type is refused.
+        self._keys.extend([self._key_from_state(key) for key in state])
 
     def _set(self, key, value=None, ifunset=False):
         index = self._search(key)
